@@ -29,7 +29,7 @@ class C31(Prop):
   thorough_examples = 3000
   rule = ("Generated scenarios under the deterministic scheduler and virtual clock: an ActiveObject "
           "subclass that declares QUEUE_SIZE 1..5 (its limit of tracked timed sources; thorough adds "
-          "the shipped limit of 500) is filled to that limit with tracked sources (periods 0.5-2.0, "
+          "the shipped limit of 500 and a subclass limit of 506) is filled to that limit with tracked sources (periods 0.5-2.0, "
           "deferred or not, endless or 1-2 shots), then - at once or after 1.25 / 5 s, when the "
           "finite ones have finished but still occupy their slots - 1-2 further timed posts are attempted (fifo/lifo, period 0 (a back-to-back burst), 1e-6..5, "
           "times 0/1/3, deferred or not) under generated schedules, and time runs on for several "
@@ -47,8 +47,9 @@ class C31(Prop):
     if tier != "thorough" or shard != 0:
       return
     from ..common import Stats
-    for deferred in (False, True):
-      case = {"cap": 500, "tracked": [{"kind": "fifo", "period": 50.0, "times": 0, "deferred": True}] * 500,
+    for deferred, cap in ((False, 500), (True, 500), (False, 506)):
+      # (506: a subclass that asks for MORE than the shipped limit)
+      case = {"cap": cap, "tracked": [{"kind": "fifo", "period": 50.0, "times": 0, "deferred": True}] * cap,
               "rejected": {"kind": "fifo", "period": 0.25, "times": 1, "deferred": deferred},
               "attempts": 1, "schedule": []}
       try:
@@ -88,7 +89,7 @@ class C31(Prop):
           info["raised"].append("ActiveObjectOutOfPostedEventResources")
         except Exception as e:
           info["raised"].append(type(e).__name__)
-      horizon = info["t0"] + case.get("delay", 0.0) + (4.0 if case["cap"] != 500 else 1.0)
+      horizon = info["t0"] + case.get("delay", 0.0) + (4.0 if case["cap"] < 500 else 1.0)
       info["horizon"] = horizon
       s.sleep_until(horizon)
       info["posts"] = [dict(p) for p in rec.posts]
@@ -100,7 +101,7 @@ class C31(Prop):
     import contextlib
     try:
       with contextlib.redirect_stdout(io.StringIO()):     # miros pretty-prints its source table on rejection
-        s = w.run(body, step_limit=3000000 if case["cap"] == 500 else 600000)
+        s = w.run(body, step_limit=3000000 if case["cap"] >= 500 else 600000)
     except (detsched.Deadlock, detsched.StepLimit) as e:
       raise PropertyViolation("no quiescence: %s" % e, "C31:liveness")
     if s.thread_errors:
